@@ -40,7 +40,7 @@ def build_driver(variant='rel'):
 
 
 def parse_history(path):
-    h = dict(calls=[], sends=[], pkts=[], recon=[], dec=[], hdr=None, end=None, extra=[], fh=[])
+    h = dict(calls=[], sends=[], pkts=[], recon=[], dec=[], hdr=None, end=None, extra=[], fh=[], decs=[])
     try:
         for line in open(path, errors='replace'):
             p = line.split()
@@ -60,6 +60,8 @@ def parse_history(path):
                 h['recon'].append(d)
             elif p[0] == 'DEC':
                 h['dec'].append(dict(k=int(p[1]), hash=p[4], pkt=int(p[5]) if len(p) > 5 else -1))
+            elif p[0] == 'DECS':
+                h['decs'].append(dict(start=int(p[1]), idx=int(p[2]), hash=p[3], pkt=int(p[4])))
             elif p[0] == 'FH':
                 d = dict(pkt=int(p[1]), chunk=int(p[2]))
                 for kv in p[3:]:
